@@ -57,18 +57,80 @@ def mk_input(specs, fasta_like=False):
             p = p + n
         scs.append(Scaffold(name, rows))
         layout[name] = lay
+    if PLAIN:
+        # replay: go through real AGP text and the real parser
+        parsed = p_agp(fmt_agp(Assembly("in", scaffolds=scs)), "in")
+        layout = {}
+        for sc in parsed.scaffolds:
+            lay, p = [], 0
+            for r in sc.rows:
+                lay.append((r, p + 1, p + r.length))
+                p += r.length
+            layout[sc.name] = lay
+        return IndexedAssembly.new_from_assembly(parsed), layout
     return IndexedAssembly("in", scaffolds=scs), layout
 
 
-def mk_pretext(groups, tf):
+class Texel:
+    """bp_per_texel as the code sees it: a number t >= 1 with floor(t) = tf and a
+    flag fr (1 = t has a fractional part).  Supports what the code under test
+    (and plausible variants of it) may do with the value: floor, ceil, int,
+    truthiness, division in an error message."""
+
+    def __init__(self, tf, fr):
+        self.tf = tf
+        self.fr = fr
+
+    def __floor__(self):
+        return self.tf
+
+    def __ceil__(self):
+        return self.tf + self.fr
+
+    def __int__(self):
+        return self.tf
+
+    __trunc__ = __int__
+
+    def __bool__(self):
+        return True
+
+    def __rtruediv__(self, other):
+        return other / self.tf
+
+    def __format__(self, spec):
+        return "<texel>"
+
+    def __str__(self):
+        return "<texel>"
+
+
+def texel_value(tf, fr):
+    if PLAIN:
+        return float(tf) + (0.5 if fr else 0.0)
+    return Texel(tf, fr)
+
+
+def mk_pretext(groups, tf, fr=0):
     """groups: list of (pretext scaffold name, [(input scaffold, start, end, strand, tags), ...])"""
-    p = Assembly("pretext", bp_per_texel=tf)
+    p = Assembly("pretext", bp_per_texel=texel_value(tf, fr))
     for gname, pieces in groups:
         sc = Scaffold(gname)
         for (iname, s, e, st, tags) in pieces:
             sc.add_row(Fragment(iname, s, e, st, tuple(tags)))
         p.add_scaffold(sc)
+    if PLAIN:
+        # replay: real Pretext AGP text with the resolution header, real parser
+        t = REPLAY_TEXEL[0] if REPLAY_TEXEL[0] is not None else texel_value(tf, fr)
+        q = Assembly("pretext", header=["HiC MAP RESOLUTION: %.9f bp/texel" % float(t)], scaffolds=p.scaffolds)
+        text = fmt_agp(q)
+        REPLAY_TEXT["pretext_agp"] = text
+        return p_agp(text, "pretext")
     return p
+
+
+REPLAY_TEXEL = [None]
+REPLAY_TEXT = {}
 
 
 def run_pipeline(inp, prtxt, prefix=None):
@@ -147,3 +209,159 @@ def same_rows(a_rows, b_rows):
 
 def describe_outs(outs):
     return {str(k): [(s.name, s.tag, s.rank, [str(r) for r in s.rows]) for s in a.scaffolds] for k, a in outs.items()}
+
+
+# ---------------------------------------------------------------- C02 layout oracle
+def cc(frag, s, x):
+    """contig coordinate of scaffold position x for a contig whose row starts
+    at scaffold position s (contig strand is concrete on every path)"""
+    if frag.strand == -1:
+        return frag.end - (x - s)
+    return frag.start + (x - s)
+
+
+def piece_core_terms(rows, oidx, ps, pe, po, E):
+    """For the piece [ps,pe] (orientation po) on an input scaffold with layout
+    ``rows``: per contig n meeting the 3E-core, meets[n] and cov[n][j] = output
+    fragment j covers the contig's core part with strand input x piece."""
+    lo = ps + 3 * E + 1
+    hi = pe - 3 * E - 1
+    nonempty = lo <= hi
+    meets, cov = {}, {}
+    contigs = [(n, r, s, e) for n, (r, s, e) in enumerate(rows) if is_frag(r)]
+    for (n, r, s, e) in contigs:
+        meets[n] = AND(nonempty, e >= lo, s <= hi)
+        a = IMAX(s, lo)
+        b = IMIN(e, hi)
+        x1 = cc(r, s, a)
+        x2 = cc(r, s, b)
+        c1 = IMIN(x1, x2)
+        c2 = IMAX(x1, x2)
+        cov[n] = {}
+        for j, (k, sc, i, f) in enumerate(oidx):
+            if f.name == r.name:
+                cov[n][j] = AND(f.start <= c1, f.end >= c2, f.strand == r.strand * po)
+    return contigs, meets, cov
+
+
+def piece_ok(rows, oidx, ps, pe, po, E):
+    contigs, meets, cov = piece_core_terms(rows, oidx, ps, pe, po, E)
+    ok = True
+    for (n, r, s, e) in contigs:
+        ok = AND(ok, IMPLIES(meets[n], COUNT(list(cov[n].values())) == 1))
+    # consecutive contigs that both meet the core are neighbours in ONE output
+    # scaffold, in piece orientation, with exactly the input rows between them
+    for a in range(len(contigs) - 1):
+        (n1, r1, s1, e1), (n2, r2, s2, e2) = contigs[a], contigs[a + 1]
+        between_in = [x[0] for x in rows[n1 + 1:n2]]
+        alt = False
+        for j, t1 in cov[n1].items():
+            for k, t2 in cov[n2].items():
+                (_, sc1, i1, f1), (_, sc2, i2, f2) = oidx[j], oidx[k]
+                if sc1 is not sc2:
+                    continue
+                if po == 1:
+                    if i2 <= i1:
+                        continue
+                    between = sc1.rows[i1 + 1:i2]
+                else:
+                    if i2 >= i1:
+                        continue
+                    between = sc1.rows[i2 + 1:i1][::-1]
+                if len(between) != len(between_in) or any(not is_gap(x) for x in between):
+                    continue
+                g_ok = True
+                for x, y in zip(between, between_in):
+                    g_ok = AND(g_ok, x.length == y.length, x.gap_type == y.gap_type)
+                alt = OR(alt, AND(t1, t2, g_ok))
+        ok = AND(ok, IMPLIES(AND(meets[n1], meets[n2]), alt))
+    return ok, (contigs, meets, cov)
+
+
+def pretext_order_ok(oidx, terms_a, terms_b):
+    """pieces a then b (consecutive in one Pretext scaffold): wherever their
+    core-covering fragments share an output scaffold, a's come before b's"""
+    ok = True
+    (ca, ma, cova), (cb, mb, covb) = terms_a, terms_b
+    for n, d in cova.items():
+        for j, t1 in d.items():
+            for m, d2 in covb.items():
+                for k, t2 in d2.items():
+                    (_, sc1, i1, _), (_, sc2, i2, _) = oidx[j], oidx[k]
+                    if sc1 is sc2 and j != k and i1 >= i2:
+                        ok = AND(ok, NOT(AND(ma[n], mb[m], t1, t2)))
+    return ok
+
+
+def cut_ok(rows, oidx, c, E):
+    """a cut between scaffold positions c and c+1 lying deeper than 3E inside a
+    contig splits it exactly there"""
+    ok = True
+    for (r, s, e) in rows:
+        if is_gap(r):
+            continue
+        deep = AND(c - s + 1 >= 3 * E + 1, e - c >= 3 * E + 1)
+        x1 = cc(r, s, c)
+        x2 = cc(r, s, c + 1)
+        left, right = [], []
+        for (k, sc, i, f) in oidx:
+            if f.name != r.name:
+                continue
+            if r.strand == -1:
+                left.append(f.start == x1)
+                right.append(f.end == x2)
+            else:
+                left.append(f.end == x1)
+                right.append(f.start == x2)
+        ok = AND(ok, IMPLIES(deep, AND(COUNT(left) == 1, COUNT(right) == 1)))
+    return ok
+
+
+def layout_ok(inp, layout, groups, outs, E, cuts):
+    oidx = out_frags(outs)
+    ok = True
+    for gname, pieces in groups:
+        prev = None
+        for (iname, ps, pe, po, tags) in pieces:
+            pk, terms = piece_ok(layout[iname], oidx, ps, pe, po, E)
+            ok = AND(ok, pk)
+            if prev is not None:
+                ok = AND(ok, pretext_order_ok(oidx, prev, terms))
+            prev = terms
+    for iname, cl in cuts.items():
+        for c in cl:
+            ok = AND(ok, cut_ok(layout[iname], oidx, c, E))
+    return ok
+
+
+# ---------------------------------------------------------------- grid realisability (replays)
+def grid_realisable(tf, fr, cuts, ends):
+    """Is there a real texel width t (floor(t) = tf, fractional iff fr) such that
+    every cut position and every shown scaffold end is floor(k*t) for an integer
+    k?  All values concrete (replay).  Returns t as a Fraction or None."""
+    from fractions import Fraction
+    pts = []
+    for cl in cuts.values():
+        pts += list(cl)
+    for name, (shown, true_len) in ends.items():
+        if shown != true_len:
+            pts.append(shown)
+    if not fr:
+        t = Fraction(tf)
+        return t if all(p % tf == 0 for p in pts) else None
+    lo, hi = Fraction(tf), Fraction(tf + 1)      # open interval (tf, tf+1)
+    def search(i, lo, hi):
+        if lo >= hi:
+            return None
+        if i == len(pts):
+            t = (lo + hi) / 2
+            return t if tf < t < tf + 1 else None
+        p = pts[i]
+        for k in range(max(1, p // (tf + 1)), p // tf + 2):
+            # floor(k t) == p  <=>  p/k <= t < (p+1)/k
+            a, b = max(lo, Fraction(p, k)), min(hi, Fraction(p + 1, k))
+            r = search(i + 1, a, b)
+            if r is not None:
+                return r
+        return None
+    return search(0, lo, hi)
